@@ -201,7 +201,11 @@ def classify (c : Ctx) (e : Event) (cands : List (RState × XOut)) : List String
   let obsProps : List String × String :=
     if obsOkC.isEmpty then (["C02"] ++ cleanP, s!"observers impl size={e.obs.size} empty={e.obs.empty} cap={e.obs.cap}")
     else ([], "")
-  let ps := dedup (outProps.1 ++ sweepProps.1 ++ obsProps.1)
+  -- rr_cache: a wrong set of survivors of an evicting insert is also C15's legality clause
+  -- (exactly one prior resident goes, never the inserted key, never nothing)
+  let rrP := if c.kind == .rr && !sweepProps.1.isEmpty &&
+      (match e.op with | .insert .. | .insertRange .. => true | _ => false) then ["C15"] else []
+  let ps := dedup (outProps.1 ++ sweepProps.1 ++ obsProps.1 ++ rrP)
   (if ps.isEmpty then ["C02"] else ps, outProps.2 ++ sweepProps.2 ++ obsProps.2)
 
 /-- more simultaneous candidates than this and the script is given up as undecided (never as a
